@@ -157,18 +157,20 @@ theorem root_info_name_is_separator {σ} (inner : FSI σ) (p n : Path) (c : Call
   obtain ⟨i0, rfl, hi⟩ := post_ret_info_stat
     (by rcases hc with rfl | rfl; exact Or.inl ⟨n, rfl⟩; exact Or.inr ⟨n, rfl⟩) hr
   rw [hi]
-  show reportedName (mk p) _ i0.name = _
+  show reportedInfoName (mk p) _ i0.name = _
   have hp : (PN.rerooted (mk p) c).primaryPath = join (mk p) (clean n) := by
     rcases hc with rfl | rfl <;> rfl
   rw [hp]
-  exact reportedName_root (mk_clean p) hroot _
+  exact reportedInfoName_root (mk_clean p) hroot _
 
 /-- N14.2b for every other name that stays inside, the `FileInfo` is EXACTLY the one the inner
 filesystem returned for `prefix + cleaned name` — its name, the base of the cleaned name, included —
-provided the stored prefix contains a separator (every absolute prefix; a relative one with at least
-two components).  The hypothesis is forced: `relative_prefix_info_name_trimmed`. -/
-theorem info_name_is_base_partial {σ} (inner : FSI σ) (hR : ReportsGivenNames inner)
-    (p n : Path) (hsep : '/' ∈ mk p) (c : Call)
+for EVERY prefix, relative ones included (since the repair of defect D26: `newPrefixFileInfo` used to
+apply the handle-name override — a string-prefix test — to the BASE name as well, which trimmed the
+names of entries below a one-component relative prefix: `relative_prefix_info_name_trimmed` records
+what the old code computed). -/
+theorem info_name_is_base {σ} (inner : FSI σ) (hR : ReportsGivenNames inner)
+    (p n : Path) (c : Call)
     (hc : c = .stat n ∨ c = .lstat n) (hs : StaysInside n) (hn : (cleanC n).comps ≠ [])
     (s s' : σ) (i : Info)
     (hcall : (prefixFS p inner).call s c = (s', .ok (.info i))) :
@@ -186,11 +188,11 @@ theorem info_name_is_base_partial {σ} (inner : FSI σ) (hR : ReportsGivenNames 
   have hp : (PN.rerooted (mk p) c).primaryPath = join (mk p) (clean n) := by
     rcases hc with rfl | rfl <;> rfl
   rw [hp] at hn0 hi
-  have hname : reportedName (mk p) (join (mk p) (clean n)) i0.name = i0.name := by
-    rw [hn0]; exact reportedName_info (mk_clean p) hsep hs hn
+  have hname : reportedInfoName (mk p) (join (mk p) (clean n)) i0.name = i0.name :=
+    reportedInfoName_info (mk_clean p) hs hn _
   have hii : i = i0 := by
     rw [hi]
-    show ({ i0 with name := reportedName (mk p) (join (mk p) (clean n)) i0.name } : Info) = i0
+    show ({ i0 with name := reportedInfoName (mk p) (join (mk p) (clean n)) i0.name } : Info) = i0
     rw [hname]
   subst hii
   refine ⟨hc0, ?_, ?_⟩
@@ -268,7 +270,7 @@ theorem names_never_contain_prefix_partial {σ} (inner : FSI σ) (hR : ReportsGi
     by_cases hn : (cleanC n).comps = []
     · rw [root_info_name_is_separator inner p n c hcn hn s s' i hcall]
       exact not_mentions_root hc
-    · rw [(info_name_is_base_partial inner hR p n hsep c hcn hs hn s s' i hcall).2.2]
+    · rw [(info_name_is_base inner hR p n c hcn hs hn s s' i hcall).2.2]
       exact fun hm => hnm' (mentions_of_last hc hn hm)
   · rintro t n rfl rfl
     obtain ⟨r0, hc0, hr⟩ := call_inside_inv inner p _ s s' _ hin hsym hcall
@@ -353,9 +355,10 @@ theorem root_prefix_handle_name_unrooted :
     reportedName pre (join pre (clean "/a/b".toList)) (base (join pre (clean "/a/b".toList))) = "b".toList := by
   decide
 
-/-- WITNESS (forces `'/' ∈ mk p` in `info_name_is_base_partial`): with the relative prefix `rel`
-the `FileInfo` of `/relx` is named `x` — `HasPrefix(baseName, prefix)` fires on the BASE name; and
-with `aa` below prefix `a` the reported name is the prefix's own component -/
+/-- WITNESS of defect D26 (repaired): what the HANDLE-name override computes when it is applied to a
+BASE name, as `newPrefixFileInfo` used to do: with the relative prefix `rel` the `FileInfo` of `/relx`
+was named `x` — `HasPrefix(baseName, prefix)` fires on the base name; and with `aa` below prefix `a`
+the reported name was the prefix's own component -/
 theorem relative_prefix_info_name_trimmed :
     (let pre := mk "rel".toList
      base (join pre (clean "/relx".toList)) = "relx".toList ∧
